@@ -81,6 +81,8 @@ def cases(tier, seed):
             add(st, list(allp[-1]), depth=d, par=k, late=0.15, profile="slow_workers")
             if st != "walk":
                 add(st, "ALL", depth=d, par=k, late=0.05, profile="natural")
+    for k in (1, 2) if tier == "quick" else (1, 2, 2, 4):
+        add("subprocess_cascade", [2, R.randrange(4), R.randrange(4)], depth=2, par=k, fmt=R.choice(["npy", "png"]))
     for k in (1, 2) if tier == "quick" else (1, 2, 4, 8):
         add("cli_cascade", [2, R.randrange(4), R.randrange(4)], depth=2, par=k, fmt=R.choice(["npy", "png"]))
     return out
@@ -262,7 +264,46 @@ def _stage_fn(spec, workdir):
     raise ValueError(st)
 
 
+def case_subprocess(spec, workdir):
+    """the real command line, un-instrumented, real time-outs: `toasty cascade` on a pyramid with a corrupt tile must
+    exit non-zero. Only the exit status is observed; a run that is still going after the (generous) wall-clock limit is
+    INCONCLUSIVE here - the stuck state itself is decided by the instrumented in-process variant (stage cli_cascade)."""
+    import subprocess
+    import sys
+
+    from toasty.image import Image
+    from toasty.pyramid import Pos, PyramidIO
+
+    from vlib.core import repo_root
+
+    d = os.path.join(workdir, "pyr")
+    fmt = spec["fmt"]
+    p0 = PyramidIO(d, default_format=fmt)
+    for p in rq.all_positions(spec["depth"], spec["depth"]):
+        arr = np.full((256, 256, 3), 9, np.uint8) if fmt == "png" else np.full((256, 256), 1.5, np.float32)
+        p0.write_image(Pos(*p), Image.from_array(arr), format=fmt)
+    bad = p0.tile_path(Pos(*spec["item"]), format=fmt)
+    with open(bad, "r+b") as f:
+        f.truncate(40)
+    env = dict(os.environ, PYTHONPATH=repo_root() + os.pathsep + os.environ.get("PYTHONPATH", ""))
+    cmd = [sys.executable, "-c", "from toasty.cli import entrypoint; entrypoint()", "cascade", "--start", str(spec["depth"]), "-j", str(spec["par"]), "--format", fmt, d]
+    counters = collections.Counter({"faults_subprocess_cascade": 1, "faults_k%d" % spec["par"]: 1})
+    try:
+        r = subprocess.run(cmd, env=env, capture_output=True, text=True, timeout=90, start_new_session=True)
+    except subprocess.TimeoutExpired:
+        return dict(status="inconclusive", detail="`toasty cascade` still running after 90 s on a pyramid with a corrupt tile (wall-clock only: no verdict)")
+    res = dict(counters=dict(counters, **{"outcome_exit%d" % min(r.returncode, 9): 1}), nontrivial=spec["par"] >= 2,
+               sample=dict(spec=spec, returncode=r.returncode, stderr_tail=r.stderr[-300:]),
+               sets=dict(fault_points=[["subprocess_cascade", spec["par"], spec["item"], fmt]]))
+    if r.returncode == 0:
+        res.update(status="violation", key="subprocess_cascade:%s:returned" % ("serial" if spec["par"] == 1 else "parallel"),
+                   detail="`toasty cascade -j %d` exited 0 although tile %s is corrupt; stderr tail: %s" % (spec["par"], spec["item"], r.stderr[-300:]))
+    return res
+
+
 def run_case(spec, workdir):
+    if spec["stage"] == "subprocess_cascade":
+        return case_subprocess(spec, workdir)
     par = spec["par"]
     instr_mp.install(spec["profile"] if par > 1 else "natural", spec["seed"])
     log = os.path.join(workdir, "log")
